@@ -140,7 +140,6 @@ func (x *Explorer) NonNeg(a *Term) bool {
 	return x.Prove(x.Not(x.Lt(a, x.T.Int(0))))
 }
 
-
 func isConstK(t *Term, k int64) bool {
 	v, ok := t.Int64()
 	return ok && v == k
